@@ -111,3 +111,15 @@ pub fn naive_find(hay: &[u8], needle: &[u8]) -> Option<usize> {
     }
     None
 }
+
+/// Specification of `dlt_core::parse::forward_to_next_storage_header`
+/// (offset of the first `DLT\x01`, and the input from there). Used in
+/// whole-message harnesses because memchr's finder does run-time CPU feature
+/// detection through inline assembly, which Kani cannot execute. That the real
+/// function meets this specification is the subject of C06's unit harness.
+pub fn forward_stub(input: &[u8]) -> Option<(u64, &[u8])> {
+    match naive_find(input, &[0x44, 0x4C, 0x54, 0x01]) {
+        Some(i) => Some((i as u64, &input[i..])),
+        None => None,
+    }
+}
